@@ -27,7 +27,8 @@
 //	      @m (empty metadata) @t<ts> @h<height> @c<k> (chain id old<k>) @F (failed on source chain)
 //	      @s<a<i>|F>:<accnum>:<seq> (signer info, repeatable)
 //
-// output (the part the Lean model predicts):   mem=<R> str=<R>
+// output (the part the Lean model predicts):   mem=<R> str=<R>     (`str==` when both are equal;
+// a dump longer than 90 bytes is printed as #<accounts>:<FNV-1a 32 of the dump>)
 //
 //	R = refuse:<class> | panic:<class> | ok v<first commit version> tx=<ok|fail|skip,...> fc=<fee collector acc number|-> acc=<dump>
 //	dump = a<i>#<accnum>/<seq>:<coins> for the addresses a0..a31 that exist, joined by `;`
@@ -48,6 +49,7 @@ import (
 	"encoding/hex"
 	"encoding/json"
 	"fmt"
+	"hash/fnv"
 	"os"
 	"path/filepath"
 	"sort"
@@ -641,7 +643,13 @@ func (o *obs) R() string {
 	if len(toks) > 0 {
 		tx = strings.Join(toks, ",")
 	}
-	return fmt.Sprintf("ok v%d tx=%s fc=%s acc=%s", o.ver, tx, o.fc, o.dump)
+	dump := o.dump
+	if len(dump) > 90 { // the kit cuts output lines at 300 bytes
+		h := fnv.New32a()
+		h.Write([]byte(dump))
+		dump = fmt.Sprintf("#%d:%d", strings.Count(dump, ";")+1, h.Sum32())
+	}
+	return fmt.Sprintf("ok v%d tx=%s fc=%s acc=%s", o.ver, tx, o.fc, dump)
 }
 
 func (o *obs) results() string {
@@ -892,6 +900,9 @@ func exec(toks []string) (string, string) {
 	mem1, mem2 := runLoaded(s, memLoad), runLoaded(s, memLoad)
 	str1, str2 := runLoaded(s, strLoad), runLoaded(s, strLoad) // cold cache, then warm cache
 	impl := "mem=" + mem1.R() + " str=" + str1.R()
+	if mem1.R() == str1.R() {
+		impl = "mem=" + mem1.R() + " str=="
+	}
 
 	// ---- oracle
 	var viol string
